@@ -6,11 +6,13 @@
 (* `link` path shares the inode of its (transitively resolved) target.  This is the Normalize(input) side    *)
 (* of property C01; the real gensquashfs is run on every program TLC emits and the decoded image must equal  *)
 (* the meaning.                                                                                              *)
-EXTENDS Naturals, Sequences, FiniteSets, TLC, Json
+EXTENDS Integers, Sequences, FiniteSets, TLC, Json
 CONSTANTS MaxLen, Emit,
           LinkFlagsDropped,      \* TRUE = pinned tree: the link directive loses its hard-link flag (stored as symlink)
           CycleCheckStartOnly,   \* TRUE = pinned tree: resolve_link only notices cycles through the starting link
-          GlobLinkPrefixDropped  \* TRUE = pinned tree: hard links found by `glob <prefix>` name their target without the prefix
+          GlobLinkPrefixDropped, \* TRUE = pinned tree: hard links found by `glob <prefix>` name their target without the prefix
+          OptSet                 \* the command line options explored: set of [defUid: owner of implicitly created directories and of the
+                                 \* root (--defaults uid=), forceUid: -1 or the owner forced on ALL inodes (--set-uid)]
 Paths == {<<"a">>, <<"b">>, <<"a", "a">>, <<"a", "b">>, <<"b", "a">>, <<>>}
 Kinds == {"dir", "file", "slink", "link", "pipe"}
 (* `glob <path> ... [-nohardlinks|-nonrecursive] <location>` (bin/gensquashfs/src/glob.c, lib/common/src/           *)
@@ -93,13 +95,25 @@ Meaning(prog) ==
        ELSE IF \E p \in Links(b.nodes) : res[p][1] = "err" THEN [outcome |-> "refused"]
        ELSE [outcome |-> "ok",
              tree |-> {[p |-> p, kind |-> IF b.nodes[p].kind = "link" THEN b.nodes[res[p][2]].kind ELSE b.nodes[p].kind,
-                        uid |-> IF b.nodes[p].kind = "link" THEN b.nodes[res[p][2]].uid ELSE b.nodes[p].uid] : p \in DOMAIN b.nodes},
+                        uid |-> IF b.nodes[p].kind = "link" THEN b.nodes[res[p][2]].uid ELSE b.nodes[p].uid,
+                        implicit |-> b.nodes[p].implicit] : p \in DOMAIN b.nodes},
              same |-> {<<p, res[p][2]>> : p \in Links(b.nodes)}]
+(* the options act on the finished tree: implicit directories (the root included) are owned by the default owner, and --set-uid  *)
+(* overrides every owner, whatever the pack file says                                                                            *)
+WithOpts(m, o) ==
+  IF m.outcome # "ok" \/ LinkFlagsDropped THEN m
+  ELSE [m EXCEPT !.tree = {[p |-> n.p, kind |-> n.kind,
+                            uid |-> IF o.forceUid >= 0 THEN o.forceUid ELSE IF n.implicit THEN o.defUid ELSE n.uid] : n \in m.tree}]
 
-VARIABLE prog
-Init == \E k \in 1..MaxLen : prog \in [1..k -> Directive]      \* enumerated lazily (a UNION would be built as one set)
-Next == UNCHANGED prog
-Spec == Init /\ [][Next]_prog
+VARIABLES prog, cmdopt
+Init == /\ \E k \in 1..MaxLen : prog \in [1..k -> Directive]      \* enumerated lazily (a UNION would be built as one set)
+        /\ cmdopt \in OptSet
+Next == UNCHANGED <<prog, cmdopt>>
+Spec == Init /\ [][Next]_<<prog, cmdopt>>
+(* --set-uid wins over everything; without it explicit owners are kept and only implicit directories take the default *)
+OwnersFollowOptions ==
+  LET m == WithOpts(Meaning(prog), cmdopt) IN
+  m.outcome = "ok" => \A n \in m.tree : (cmdopt.forceUid >= 0 => n.uid = cmdopt.forceUid) /\ (n.p = <<>> /\ cmdopt.forceUid < 0 /\ ~(\E i \in 1..Len(prog) : prog[i].kind = "dir" /\ prog[i].path = <<>>) => n.uid = cmdopt.defUid)
 NeverHangs == Meaning(prog).outcome # "hang"
 (* sanity of the meaning itself: a successful program yields a tree closed under parents, links never name directories *)
 TreeClosed == Meaning(prog).outcome = "ok" =>
@@ -115,5 +129,5 @@ GlobLinksFaithful ==
       \A k \in 1..Len(ents) : ents[k].kind = "hl" =>
         LET p == prog[i].path \o ents[k].rel IN
         (\E x \in Meaning(prog).same : x[1] = p) => <<p, prog[i].path \o ents[k].tgt>> \in Meaning(prog).same
-EmitOK == Emit => PrintT(<<"RESULT", ToJson([prog |-> prog, m |-> Meaning(prog)])>>)
+EmitOK == Emit => PrintT(<<"RESULT", ToJson([prog |-> prog, opt |-> cmdopt, m |-> WithOpts(Meaning(prog), cmdopt)])>>)
 =============================================================================
